@@ -161,3 +161,18 @@ pub struct VerifDump {
     /// `(variable, satisfying value)`; `None` for clauses without watches.
     pub initial_watches: Vec<Option<[(u32, bool); 2]>>,
 }
+
+/// The id an arena of the pool hands out for its `index`-th element (0-based),
+/// for the five id types of the pool: 0 = name, 1 = string, 2 = version set,
+/// 3 = version set union, 4 = solvable. Panics if the id type cannot represent
+/// the index.
+pub fn pool_id_for_index(kind: u8, index: usize) -> u32 {
+    use crate::internal::arena::ArenaId;
+    match kind {
+        0 => crate::NameId::from_usize(index).0,
+        1 => crate::StringId::from_usize(index).0,
+        2 => crate::VersionSetId::from_usize(index).0,
+        3 => crate::VersionSetUnionId::from_usize(index).0,
+        _ => crate::SolvableId::from_usize(index).0,
+    }
+}
